@@ -53,6 +53,11 @@ def header_view_record(fb, cls):
         e = body[0].get("e")
         if e and e.get("k") == "cast" and e.get("written") == "reinterpret":
             inner = strip_all_casts(e["e"])
+            if inner.get("k") == "call" and (inner.get("callee") or {}).get("nm") != "data":
+                from .facts import inline_accessor
+                y = inline_accessor(fb, inner)  # e.g. getRawPayload(), which returns the buffer's data()
+                if y is not None:
+                    inner = strip_all_casts(y)
             if inner.get("k") == "call" and (inner.get("callee") or {}).get("nm") == "data":
                 o = strip(inner.get("obj", {}))
                 if fb.is_payload_buffer(o):
